@@ -9,7 +9,8 @@ EXTENDS Naturals, Sequences, FiniteSets, TLC, Json, CSV, Str
 CONSTANTS MaxPath, Tier
 
 Vocab == [ atoms |-> [ sl |-> "/", a |-> "a", b |-> "b", app |-> "app", x |-> "x", files |-> "files", t |-> "a.txt",
-                       p2F |-> "%2F", p2E |-> "%2E", p20 |-> "%20", plus |-> "+", semi |-> ";", utf |-> "%C3%A9", v1 |-> "v1", v2 |-> "v2" ] ]
+                       p2F |-> "%2F", p2E |-> "%2E", p20 |-> "%20", plus |-> "+", semi |-> ";", utf |-> "%C3%A9", v1 |-> "v1", v2 |-> "v2",
+                       dots2 |-> "v1..2", dots3 |-> "..." ] ]       \* segments that merely CONTAIN adjacent dots (no dot segments: the paths stay normalised)
 
 Seg == {"a", "b", "app", "x", "p2F", "p2E", "p20", "plus", "semi", "utf"}
 Tok == Seg \cup {"sl"}
@@ -20,7 +21,8 @@ ValidPath(p) == /\ Len(p) >= 1 /\ p[1] = "sl"
                 /\ p[Len(p)] # "p2F"
 \* a few longer paths that put escapes inside the part a rewrite rule captures / below a nested prefix
 ExtraPaths == { <<"sl", "app", "sl", "a", "p2F", "b">>, <<"sl", "app", "sl", "x", "sl", "a", "p20", "b">>, <<"sl", "app", "sl", "utf", "semi", "plus">>,
-                <<"sl", "a", "sl", "b", "sl", "x", "p2F", "a">>, <<"sl", "a", "p2F", "b", "sl", "x">>, <<"sl", "app", "sl", "a", "p2E", "b">> }
+                <<"sl", "a", "sl", "b", "sl", "x", "p2F", "a">>, <<"sl", "a", "p2F", "b", "sl", "x">>, <<"sl", "app", "sl", "a", "p2E", "b">>,
+                <<"sl", "app", "sl", "dots2">>, <<"sl", "a", "sl", "dots3">>, <<"sl", "dots2">>, <<"sl", "a", "sl", "b", "sl", "dots2", "sl", "x">> }
 Paths == {p \in SeqsUpTo(Tok, 1, MaxPath) : ValidPath(p)} \cup ExtraPaths
 
 Decoded(p) == [i \in 1..Len(p) |-> IF p[i] = "p2F" THEN "sl" ELSE p[i]]
